@@ -53,3 +53,22 @@ def option_sets(modname, func, other=None):
         else:
             unknown.append(p.name)
     return out, unknown
+
+
+def option_combos(modname, func, other=None):
+    """kwargs dicts with two or three non-default options on different parameters (the few functions that take
+    several options: isan.validate/format, meid.format, imei.format, isbn.format): the full product of the single
+    non-default values."""
+    import itertools
+    singles = option_sets(modname, func, other)[0][1:]
+    out = []
+    for r in (2, 3):
+        for combo in itertools.combinations(singles, r):
+            keys = [list(c)[0] for c in combo]
+            if len(set(keys)) != r:
+                continue
+            d = {}
+            for c in combo:
+                d.update(c)
+            out.append(d)
+    return out
